@@ -313,6 +313,9 @@ func runC25(s C25Scenario) pbt.Outcome {
 		if !sameState(got2, want) {
 			return pbt.Failf("post-fault-write", "%s; writes made after the fault cleared are not recoverable: reload has %d keys, want %d (%s)", desc(), len(got2), len(want), diffKeys(got2, want))
 		}
+		if nl := nameLost(dir, s.Hist.Cfg); nl != "" {
+			return pbt.Failf("name-lost", "%s; after the fault cleared, later writes and a clean close the records are back but %s", desc(), nl)
+		}
 		// non-trivial: the fault hit a block write or header rewrite with ≥1 block before and ≥1 after
 		fo := failedOps[0]
 		if run.ops[fo].Kind == "write" && certainCount > 0 {
